@@ -101,3 +101,86 @@ def dump(scripts, path):
     with open(path, "w") as f:
         for s in scripts:
             f.write(json.dumps(s) + "\n")
+
+
+# ---------------------------------------------------------------- C08: quit with supervised jobs
+
+def kid(self_at=None, sig_delay=None, fail=False, kill_fail=False, sig_fail=False, code=0):
+    return dict(self_at=self_at, sig_delay=sig_delay, fail=fail, kill_fail=kill_fail, sig_fail=sig_fail, code=code)
+
+
+JOB_STATES = ["never", "running", "finished", "armed_stop", "armed_restart", "deleted", "queued",
+              "clone", "forgotten", "new_in_quit_action"]
+KID_CLASSES = [kid(), kid(sig_delay=0), kid(sig_delay=20), kid(sig_delay=60), kid(self_at=30),
+               kid(self_at=200, sig_delay=20)]
+
+
+def jo(job, op, grace=0, sig="TERM"):
+    return dict(job=job, op=op, grace=grace, sig=sig)
+
+
+def quit_script(sid, states, kids, manner, grace, tq, g1, origin="quit"):
+    """states[j] = state of job j when the quit is asked at tq (the arming happens at 50)."""
+    setup, arm, atquit = [], [], []
+    for j, st in enumerate(states):
+        if st == "never":
+            setup.append(jo(j, "create"))
+        elif st == "running":
+            setup.append(jo(j, "start"))
+        elif st == "finished":
+            setup += [jo(j, "start"), jo(j, "stop")]
+        elif st == "armed_stop":
+            setup.append(jo(j, "start"))
+            arm.append(jo(j, "stop_with_signal", g1))
+        elif st == "armed_restart":
+            setup.append(jo(j, "start"))
+            arm.append(jo(j, "try_restart_with_signal", g1))
+        elif st == "deleted":
+            setup += [jo(j, "start"), jo(j, "delete")]
+        elif st == "queued":
+            setup.append(jo(j, "start"))
+            atquit += [jo(j, "run"), jo(j, "restart"), jo(j, "run")]
+        elif st == "clone":
+            setup += [jo(j, "start"), jo(j, "keep_clone")]
+        elif st == "forgotten":
+            setup.append(jo(j, "start"))
+            atquit.append(jo(j, "forget"))
+        elif st == "new_in_quit_action":
+            atquit += [jo(j, "create"), jo(j, "start")]
+    evs = [ev(1, 0)]
+    evs[0]["jobops"] = setup
+    if tq == 50:
+        atquit = arm + atquit
+    else:
+        e2 = ev(2, 50)
+        e2["jobops"] = arm
+        evs.append(e2)
+    q = ev(3, tq, act="quit" if manner == 0 else "gquit", arg=grace)
+    q["jobops"] = atquit
+    evs.append(q)
+    s = script(sid, evs, origin, throttle=0)
+    s["jobs"] = kids
+    s["horizon"] = tq + 3000
+    return s
+
+
+def quit_scripts(rng, n):
+    out = []
+    k = 0
+    # every job state alone, both manners, every child class, three grace values
+    for st in JOB_STATES:
+        for kc in KID_CLASSES:
+            for manner in (0, 1):
+                for grace in ((0,) if manner == 0 else (0, 30, 100)):
+                    for tq in (50, 60):
+                        out.append(quit_script("q%05d" % k, [st], [[kc, kc, kc]], manner, grace, tq, 40, "quit-grid"))
+                        k += 1
+    for _ in range(n):
+        nj = rng.randrange(1, 4)
+        states = [rng.choice(JOB_STATES) for _ in range(nj)]
+        kids = [[rng.choice(KID_CLASSES) for _ in range(3)] for _ in range(nj)]
+        manner = rng.choice([0, 1, 1])
+        out.append(quit_script("q%05d" % k, states, kids, manner, rng.choice([0, 30, 100]),
+                               rng.choice([50, 60, 80, 120]), rng.choice([0, 40, 100]), "quit-random"))
+        k += 1
+    return out
